@@ -32,7 +32,7 @@ def parse_split_specification(split_spec, size):
             rest_index = i
         else:
             raise ValueError("cannot parse specification '%s'" % split_spec)
-        if parts[-1] < 0:
+        if parts[-1] < 0 or part_spec.startswith('-'):
             raise ValueError("negative part size in specification '%s'"
                              % split_spec)
     # check if it makes sense
